@@ -451,6 +451,16 @@ def gen_C01(rng, tier):
             h = H(rng, desc)
             maybe_tables(h, rng)
             regs = [h.elem() for _ in range(4)]
+            if rng.random() < 0.6:
+                # a product (sum, difference) is changed in place by its owner; the same request again gives the same
+                # answer (with tables the result must not share storage with a table entry)
+                for _ in range(2):
+                    x, y = rng.choice(regs), rng.choice(regs)
+                    op1 = rng.choice(["times", "times", "plus", "minus"])
+                    r1 = h.newe(); h.ops.append("%s=%s %s %s" % (r1, op1, x, y))
+                    h.ops.append(rng.choice(["setneg %s" % r1, "add %s %s" % (r1, rng.choice(regs)), "sub %s %s" % (r1, rng.choice(regs)), "mult %s %s" % (r1, rng.choice(regs))]))
+                    r2 = h.newe(); h.ops.append("%s=%s %s %s" % (r2, op1, x, y))
+                    h.ops.append("%s=times %s %s" % (h.newe(), r2, rng.choice(regs)))
             for _ in range(14):
                 a, b = rng.choice(regs), rng.choice(regs)
                 k = rng.random()
